@@ -17,7 +17,7 @@ TEXT_ALPHABET = ["a", "Z", "0", " ", "é", "€", "\U0001f600", "中"]
 
 def plan(tier: str) -> dict:
     return {
-        "runs": 8000 if tier == "quick" else 300000,
+        "runs": 8000 if tier == "quick" else 400000,
         "budget": 150 if tier == "quick" else 900,
         "cases": _boundary_cases(),
         "chunk": 40,
